@@ -8,7 +8,7 @@ loader = importlib.machinery.SourceFileLoader("vcheck", os.path.join(V, "vcheck"
 spec = importlib.util.spec_from_loader("vcheck", loader); vc = importlib.util.module_from_spec(spec); loader.exec_module(vc)
 for cj in sorted(glob.glob(os.path.join(V, "checks", "*", "check.json"))):
     cfg = json.load(open(cj))
-    if cfg.get("disabled"): continue
+    if cfg.get("disabled") or not cfg.get("ready"): continue
     cdir = os.path.dirname(cj)
     scratch = tempfile.mkdtemp(prefix="prewarm-", dir="/var/tmp")
     try:
